@@ -620,9 +620,9 @@ func storageFormatToHLSL(format ir.StorageFormat) string {
 		return "unorm float4"
 	case ir.StorageFormatRg8Snorm, ir.StorageFormatRg16Snorm:
 		return "snorm float4"
-	case ir.StorageFormatRg8Sint, ir.StorageFormatRg16Sint, ir.StorageFormatRg32Uint:
+	case ir.StorageFormatRg8Sint, ir.StorageFormatRg16Sint, ir.StorageFormatRg32Sint:
 		return "int4"
-	case ir.StorageFormatRg8Uint, ir.StorageFormatRg16Uint, ir.StorageFormatRg32Sint:
+	case ir.StorageFormatRg8Uint, ir.StorageFormatRg16Uint, ir.StorageFormatRg32Uint:
 		return "uint4"
 
 	// Packed formats
